@@ -139,8 +139,9 @@ pub fn completed_depths(case: &SearchCase, want: u32, max_budget: u64) -> Result
     let mut budget = 2_000u64;
     loop {
         let run = run_search(&case.board, &case.table, budget);
-        if let Some(p) = &run.panic {
-            return Err(format!("search panicked at '{}': {}", case.root.fen(), p));
+        if run.panic.is_some() {
+            // a panicking search is C07's subject; here it only means this case cannot be judged
+            return Ok(None);
         }
         let mut infos = vec![];
         for (_, l) in &run.lines {
@@ -276,7 +277,7 @@ pub fn run_c12(ctx: &mut Ctx) {
         ctx,
         "shallow_search_vs_reference_minimax",
         || rep_strategy(60, false),
-        t.pick(1_600, 40_000),
+        t.pick(6_400, 40_000),
         |r, st| {
             let Some((start, moves)) = rep_moves(r) else { return Ok(()) };
             let Ok(case) = make_case(&start, &moves) else {
@@ -347,8 +348,9 @@ pub fn c11_case(case: &SearchCase, kmax: u64, st: &mut Stats) -> CaseResult {
     };
     st.label(&format!("class: {}", class));
     let reference = run_search(&case.board, &case.table, kmax);
-    if let Some(pn) = &reference.panic {
-        return Err(format!("search panicked at {}: {}", at(), pn));
+    if reference.panic.is_some() {
+        st.unjudged += 1; // C07's subject
+        return Ok(());
     }
     let mut infos = vec![];
     for (_, l) in &reference.lines {
@@ -652,7 +654,7 @@ pub fn run_c11(ctx: &mut Ctx) {
         ctx,
         "near_mate_constructions",
         mate_strategy,
-        t.pick(5_000, 120_000),
+        t.pick(15_000, 120_000),
         move |r, st| {
             let Some((start, moves)) = mate_case_moves(r).map(root_only) else {
                 st.label("recipe_discarded");
@@ -679,7 +681,7 @@ pub fn run_c11(ctx: &mut Ctx) {
         ctx,
         "mate_only_by_knight_promotion",
         underpromo_strategy,
-        t.pick(6_000, 100_000),
+        t.pick(18_000, 100_000),
         move |r, st| {
             let Some(p) = underpromo_position(r) else {
                 st.label("recipe_discarded_not_an_underpromotion_mate");
@@ -702,7 +704,7 @@ pub fn run_c11(ctx: &mut Ctx) {
         ctx,
         "endgame_and_game_walks",
         || rep_strategy(60, true),
-        t.pick(1_500, 30_000),
+        t.pick(4_500, 30_000),
         move |r, st| {
             let Some((start, moves)) = rep_moves(r).map(root_only) else { return Ok(()) };
             let Ok(case) = make_case(&start, &moves) else { return Ok(()) };
@@ -833,7 +835,7 @@ pub fn run_c10(ctx: &mut Ctx) {
         ctx,
         "repetition_counts_after_position",
         rep_heavy,
-        t.pick(40_000, 800_000),
+        t.pick(320_000, 2_400_000),
         |r, st| {
             let Some((start, moves)) = rep_moves(r) else { return Ok(()) };
             st.sample(|| case_json(&start, &moves));
@@ -854,7 +856,7 @@ pub fn run_c10(ctx: &mut Ctx) {
         ctx,
         "draw_by_repetition_available_in_search",
         lost_side,
-        t.pick(1_200, 30_000),
+        t.pick(4_800, 30_000),
         |r, st| {
             let Some((start, moves)) = rep_moves(r) else { return Ok(()) };
             let Ok(case) = make_case(&start, &moves) else { return Ok(()) };
